@@ -22,29 +22,29 @@ Definition json_lines (r : report) : list jline :=
 (* every create / update / skip / delete event of a successful run states a change that is observable by comparing
    the destination before and after: created paths were absent and exist, updated files existed and are files,
    skipped entries are unchanged, deleted paths existed and are gone *)
-Theorem C19_events_truthful : forall refuse ds c now U src dst,
+Theorem C19_events_truthful : forall refuse ds c now U keep src dst,
   src_wf src -> c_dry_run c = false -> dst [] = None ->
   (forall e, In e src -> se_is_dir e = true -> forall cc s t, dst (se_path e) <> Some (File cc s t)) ->
   (forall e, In e src -> se_is_dir e = false -> dst (se_path e) <> Some Dir) ->
   (forall p, dst p <> None -> In p U) ->
-  let r := run refuse ds c now U src dst in
+  let r := run refuse ds c now U keep src dst in
   r_refused r = false -> r_errors r = [] ->
   forall ev, In ev (r_events r) -> event_true dst (r_fs r) ev.
 Proof. exact events_truthful. Qed.
 Print Assumptions C19_events_truthful.
 
 (* conversely, a selected path whose destination entry changed has a create or update event (never only a skip) *)
-Theorem C19_changed_entry_has_event : forall refuse ds c now U src dst,
+Theorem C19_changed_entry_has_event : forall refuse ds c now U keep src dst,
   src_wf src -> c_dry_run c = false -> dst [] = None ->
   (forall e, In e src -> se_is_dir e = true -> forall cc s t, dst (se_path e) <> Some (File cc s t)) ->
   (forall e, In e src -> se_is_dir e = false -> dst (se_path e) <> Some Dir) ->
   (forall p, dst p <> None -> In p U) ->
-  let r := run refuse ds c now U src dst in
+  let r := run refuse ds c now U keep src dst in
   r_refused r = false -> r_errors r = [] ->
   forall e, In e src -> r_fs r (se_path e) <> dst (se_path e) ->
   In (ACreate, se_path e) (r_events r) \/ In (AUpdate, se_path e) (r_events r).
 Proof.
-  intros refuse ds c now U src dst Hwf Hdry Hroot Hnf Hnd2 HU r Href Herr e He Hch.
+  intros refuse ds c now U keep src dst Hwf Hdry Hroot Hnf Hnd2 HU r Href Herr e He Hch.
   assert (Hevs : In (t_action (plan_entry c ds dst e), se_path e) (r_events r)).
   { subst r. unfold run in *. cbv zeta in *.
     match type of Href with context [if ?b then _ else _] => destruct b eqn:Eb end; [cbn in Href; discriminate|].
@@ -52,7 +52,7 @@ Proof.
     rewrite map_map. apply in_map_iff. exists e. split; [|exact He]. destruct (plan_entry_ok c ds dst e) as (_ & _ & Hp). rewrite Hp. reflexivity. }
   destruct (plan_entry_ok c ds dst e) as (_ & Hnd & _).
   destruct (t_action (plan_entry c ds dst e)) eqn:Ea; [| left; exact Hevs | right; exact Hevs | congruence].
-  exfalso. apply Hch. exact (events_truthful refuse ds c now U src dst Hwf Hdry Hroot Hnf Hnd2 HU Href Herr _ Hevs).
+  exfalso. apply Hch. exact (events_truthful refuse ds c now U keep src dst Hwf Hdry Hroot Hnf Hnd2 HU Href Herr _ Hevs).
 Qed.
 Print Assumptions C19_changed_entry_has_event.
 
@@ -84,6 +84,6 @@ Example ex_report :
   let c := mk_cfg true true 50 false false false false 100 100 in
   let src := [mk_sentry [1%N] false 5 1000%Z 7 false; mk_sentry [2%N] false 6 1000%Z 8 false] in
   let dst : fs := fun p => if peqb p [1%N] then Some Dir else if peqb p [3%N] then Some (File 1 1 1%Z) else None in
-  json_lines (run (fun _ _ _ => false) (fun _ => (0%N, 0%Z)) c 9%Z [[1%N]; [3%N]] src dst)
+  json_lines (run (fun _ _ _ => false) (fun _ => (0%N, 0%Z)) c 9%Z [[1%N]; [3%N]] [] src dst)
   = [JAction ACreate [2%N]; JAction ADelete [3%N]; JError [1%N]; JSummary 1 0 0 1].
 Proof. vm_compute. reflexivity. Qed.
